@@ -141,7 +141,9 @@ theorem mentions_rename (ρ : Ren) (ps : List String) (t : Ty) :
   case paren => intro t ih; simp [Ty.rename, Ty.mentions, ih]
   case never => simp [Ty.rename, Ty.mentions]
   case dynT => intro g segs more ih; simp [Ty.rename, Ty.mentions, ih, headIn_rename]
-  case «macro» => intro toks; simp [Ty.rename, Ty.mentions]
+  case «macro» =>
+    intro toks
+    simp only [Ty.rename, Ty.mentions, List.any_map, Function.comp_def, ρ.unraw_comm, contains_map_ren]
   case prefixed => intro pre t ih; simp [Ty.rename, Ty.mentions, ih]
   case mk => intro i args ih; simp [Seg.rename, Seg.mentions, ih]
   case fn => intro i args ret ih1 ih2; simp [Seg.rename, Seg.mentions, ih1, ih2]
